@@ -1,6 +1,87 @@
 -------------------------------- MODULE JC07 --------------------------------
-(* C07 — contract of the recorded events of this property (stub).           *)
+(* C07 - modular add / sub / neg / double / mul / halve return the canonical *)
+(* residue.                                                                 *)
+(*                                                                          *)
+(* Event fields.  op : "addmod" | "submod" | "mulmod" (operands a, b),      *)
+(*   "negmod" | "doublemod" | "halve" (operand a).  bits : operand width.   *)
+(*   Modulus: m (explicit), or c for the special-modulus forms, where       *)
+(*   p = 2^bits - c with 1 <= c < 2^64 <= 2^bits.                            *)
+(*   pre : the assumption the doc comment of the recorded form states:      *)
+(*     "ab"    a < p and b < p        (traits; boxed forms assert it)       *)
+(*     "sum2p" a + b < 2p             (Uint::add_mod, add_mod_special)      *)
+(*     "diff"  -p <= a - b < p        (Uint::sub_mod, sub_mod_special)      *)
+(*     "a"     a < p                  (neg, double, halve)                  *)
+(*     "none"  nothing assumed        (multiplications)                     *)
+(*   par (mulmod) : documented behaviour for an even modulus:               *)
+(*     "panic"  the doc comment says "Panics if `p` is even"                *)
+(*     "either" the doc restricts the form to odd p without promising a     *)
+(*              panic (mul_mod_vartime), or the trait doc and the inherent  *)
+(*              doc disagree (boxed MulMod): a panic or the exact value     *)
+(*     "exact"  no restriction documented: the exact value                  *)
+(* Outputs: r the result; rp (boxed forms) its precision, which is the      *)
+(*   operands' precision.                                                   *)
+(* Outside the stated assumption the documentation promises nothing and the *)
+(* contract accepts every outcome (the recorder does not generate such      *)
+(* inputs).                                                                 *)
 EXTENDS BigNat
 
-JudgeC07(e, rg) == FALSE
+C07Has(e, f) == f \in DOMAIN e
+
+C07P(e) == IF C07Has(e, "c") THEN Sub(Pow2(e.bits), e.c) ELSE e.m
+
+\* (a - b) mod p for naturals a, b and p >= 1
+C07SubMod(a, b, p) == Mod(Sub(Add(a, Mul(p, Add(Div(b, p), One))), b), p)
+
+C07Pre(e, p) ==
+  CASE e.pre = "ab"    -> Lt(e.a, p) /\ Lt(e.b, p)
+    [] e.pre = "sum2p" -> Lt(Add(e.a, e.b), Add(p, p))
+    [] e.pre = "diff"  -> Le(e.b, Add(e.a, p)) /\ Lt(e.a, Add(e.b, p))
+    [] e.pre = "a"     -> Lt(e.a, p)
+    [] e.pre = "none"  -> TRUE
+    [] OTHER -> FALSE
+
+C07Expected(e, p) ==
+  CASE e.op = "addmod"    -> Mod(Add(e.a, e.b), p)
+    [] e.op = "submod"    -> C07SubMod(e.a, e.b, p)
+    [] e.op = "negmod"    -> C07SubMod(Zero, e.a, p)
+    [] e.op = "doublemod" -> Mod(Add(e.a, e.a), p)
+    [] e.op = "mulmod"    -> Mod(Mul(e.a, e.b), p)
+
+\* the unique value in [0, p) congruent to the mathematical result, in the operands' width
+C07Exact(e, p) ==
+  /\ e.k = "ok"
+  /\ C07Has(e, "r")
+  /\ Lt(e.r, p)
+  /\ Fits(e.r, e.bits)
+  /\ e.r = C07Expected(e, p)
+  /\ C07Has(e, "rp") => e.rp = e.bits
+
+\* halving: the unique r in [0, p) with r + r = a (mod p), p odd
+C07Halve(e, p) ==
+  /\ e.k = "ok"
+  /\ C07Has(e, "r")
+  /\ Lt(e.r, p)
+  /\ Mod(Add(e.r, e.r), p) = e.a
+  /\ e.r = (IF IsOdd(e.a) THEN Shr(Add(e.a, p), 1) ELSE Shr(e.a, 1))
+  /\ C07Has(e, "rp") => e.rp = e.bits
+
+C07WellFormed(e) ==
+  /\ C07Has(e, "bits") /\ C07Has(e, "a") /\ C07Has(e, "pre") /\ C07Has(e, "k")
+  /\ (C07Has(e, "m") \/ (C07Has(e, "c") /\ e.c # Zero /\ Fits(e.c, 64) /\ e.bits >= 64))
+  /\ e.op \in {"addmod", "submod", "mulmod"} => C07Has(e, "b")
+  /\ e.op = "mulmod" => C07Has(e, "par")
+
+JudgeC07(e, rg) ==
+  IF e.op \notin {"addmod", "submod", "negmod", "doublemod", "mulmod", "halve"} THEN FALSE
+  ELSE IF ~C07WellFormed(e) THEN FALSE
+  ELSE LET p == C07P(e) IN
+    IF p = Zero THEN FALSE                         \* a zero modulus is never recorded (C11)
+    ELSE IF ~C07Pre(e, p) THEN TRUE                \* outside the documented assumption
+    ELSE IF e.op = "halve" THEN (IF IsOdd(p) THEN C07Halve(e, p) ELSE TRUE)
+    ELSE IF e.op = "mulmod" /\ ~IsOdd(p) THEN
+      CASE e.par = "panic"  -> e.k = "panic"
+        [] e.par = "either" -> e.k = "panic" \/ C07Exact(e, p)
+        [] e.par = "exact"  -> C07Exact(e, p)
+        [] OTHER -> FALSE
+    ELSE C07Exact(e, p)
 =============================================================================
